@@ -96,7 +96,7 @@ theorem push_raised : ∀ (x : SVal) (b : B), Raised ext (positions b) (CallsOf 
       split
       · exact Raised.ctx_own _ (.val .unit) subset_refl' (.inl (.unitVariant (.self _))) (fun msg h => .body h) (NoCtx.raised _)
       · exact Raised.monoC hP_of (pushNone_raised c)
-    | _ => exact NoCtx.raised _
+    | _ => exact Raised.monoC (fun _ h => .inl h) (pushScalar_raised ext _ _)
   | .newtypeVariant n i vn v, b => by
     unfold push
     refine Raised.ctx_own b (.val (.newtypeVariant n i vn v)) subset_refl' (.inl (.self _)) (fun msg h => .body h) ?_
@@ -145,21 +145,27 @@ theorem push_raised : ∀ (x : SVal) (b : B), Raised ext (positions b) (CallsOf 
     cases b with
     | list p large fm v offs el =>
       refine Raised.bind (NoCtx.raised _) fun _ _ => Raised.bind (NoCtx.raised _) fun _ _ =>
-        Raised.bind (Raised.monoS ?_ (pushByteElems_raised ext large bs el _ fun x hx => .inl (.byte hx))) fun _ _ => Raised.of_ok _
+        Raised.bind (Raised.monoS ?_ (pushByteElems_raised ext large bs el _ fun x hx c hc => .inl (.byte hx hc))) fun _ _ => Raised.of_ok _
       simp only [positions]; exact tail_sub'
-    | _ => exact NoCtx.raised _
+    | _ => exact Raised.monoC (fun _ h => .inl h) (pushScalar_raised ext _ _)
   | .bool v, b => by
-    unfold push; exact Raised.ctx_own b (.val (.bool v)) subset_refl' (.inl (.self _)) (fun msg h => .body h) (NoCtx.raised _)
+    unfold push; exact Raised.ctx_own b (.val (.bool v)) subset_refl' (.inl (.self _)) (fun msg h => .body h)
+      (Raised.monoC (fun _ h => .inl h) (pushScalar_raised ext b _))
   | .int t v, b => by
-    unfold push; exact Raised.ctx_own b (.val (.int t v)) subset_refl' (.inl (.self _)) (fun msg h => .body h) (NoCtx.raised _)
+    unfold push; exact Raised.ctx_own b (.val (.int t v)) subset_refl' (.inl (.self _)) (fun msg h => .body h)
+      (Raised.monoC (fun _ h => .inl h) (pushScalar_raised ext b _))
   | .f32 v, b => by
-    unfold push; exact Raised.ctx_own b (.val (.f32 v)) subset_refl' (.inl (.self _)) (fun msg h => .body h) (NoCtx.raised _)
+    unfold push; exact Raised.ctx_own b (.val (.f32 v)) subset_refl' (.inl (.self _)) (fun msg h => .body h)
+      (Raised.monoC (fun _ h => .inl h) (pushScalar_raised ext b _))
   | .f64 v, b => by
-    unfold push; exact Raised.ctx_own b (.val (.f64 v)) subset_refl' (.inl (.self _)) (fun msg h => .body h) (NoCtx.raised _)
+    unfold push; exact Raised.ctx_own b (.val (.f64 v)) subset_refl' (.inl (.self _)) (fun msg h => .body h)
+      (Raised.monoC (fun _ h => .inl h) (pushScalar_raised ext b _))
   | .char v, b => by
-    unfold push; exact Raised.ctx_own b (.val (.char v)) subset_refl' (.inl (.self _)) (fun msg h => .body h) (NoCtx.raised _)
+    unfold push; exact Raised.ctx_own b (.val (.char v)) subset_refl' (.inl (.self _)) (fun msg h => .body h)
+      (Raised.monoC (fun _ h => .inl h) (pushScalar_raised ext b _))
   | .str v, b => by
-    unfold push; exact Raised.ctx_own b (.val (.str v)) subset_refl' (.inl (.self _)) (fun msg h => .body h) (NoCtx.raised _)
+    unfold push; exact Raised.ctx_own b (.val (.str v)) subset_refl' (.inl (.self _)) (fun msg h => .body h)
+      (Raised.monoC (fun _ h => .inl h) (pushScalar_raised ext b _))
   | .unitStruct v, b => by
     unfold push
     split
